@@ -51,6 +51,10 @@ def hostile(shard, rnd):
         for x in faults.field_rewrites(fr, rnd):
             if x[1] == 'field:flag-word':
                 yield x
+    if shard.get('i', 0) == 1 or (shard.get('i', 0) == 0 and
+                                  shard.get('frames', 99) < 3):
+        for x in faults.deep_big_leaf_frames(rnd):
+            yield x
     if shard.get('i', 0) == 0:
         for x in faults.long_flag_runs(rnd):
             yield x
